@@ -209,8 +209,9 @@ def lnWalk (minima : List (Nat × α)) : Nat → Nat → Nat
 /-- `LineNumbers::get(i, minima)`. The cache is filled for every position up to `i` by
     `1 + get(minima[pos].0)`; that recursion returns only if `minima[pos]` exists and points to
     an earlier column for every `pos` in `1..=i` (otherwise: index panic / unbounded recursion,
-    `none`). Entries below the `finished` mark of `online_column_minima` never change
-    (`Lemmas/Smawk.lean`), so the cached value is the number of steps back to column 0.
+    `none`). Entries at or below the `finished` mark of `online_column_minima` never change
+    (`ocmStep_prefix_stable`, Lemmas/SmawkOnline.lean), so the cached value is the number of
+    steps back to column 0.
     `get(0, _)` answers from the initial cache `[0]` without looking at `minima`. -/
 def lnGet (minima : List (Nat × α)) (i : Nat) : Option Nat :=
   if i = 0 then some 0
